@@ -592,11 +592,34 @@ static void case_law(Rng& rng, uint64_t index)
 		sample();
 }
 
+// third moment of Sample_Poisson for means just above 1000: E (k-mu)^3 = mu, variance of the estimator (mu + 25 mu^2 + 15 mu^3 - mu^2)/N.  A symmetric
+// stand-in for the Poisson law (seeded change C18-r7m2: rounded Gaussian above 1000) keeps mean and variance and is invisible to a chi-square test with
+// 1e5 samples; with N = 1000 mu samples its missing skewness is 8 standard errors.  About 1.2e9 generator draws per case.
+static void case_poisson_skewness(Rng& rng, uint64_t index)
+{
+	double mu = (index % 2 == 0) ? rng.uni(1001.0, 1200.0) : rng.uni(600.0, 1000.0);
+	size_t Np = (size_t) (1000.0 * mu);
+	set_params(J().str("sampler", "Sample_Poisson").d("mean", mu).i("N", (long long) Np));
+	hash_param(mu);
+	mark_nontrivial();
+	std::mt19937 g((uint32_t) rng.next());
+	ld m3 = 0;
+	for(size_t i = 0; i < Np; i++)
+	{
+		ld d = (ld) Sample_Poisson(g, mu) - (ld) mu;
+		m3 += d * d * d;
+	}
+	m3 /= Np;
+	double var_est = (mu + 24 * mu * mu + 15 * mu * mu * mu) / (double) Np;
+	judge("poisson-third-moment-z-test", z_of((double) m3, mu, var_est), Z_LIMIT, [&] { return J().d("third_central_moment", (double) m3).d("expected", mu); });
+}
+
 static void setup()
 {
 	add_generator("replayed_scripts", ctx().count(5400, 540000), case_reproducible);
 	add_generator("metropolis_count_grid", 784, case_metropolis_grid);
 	add_generator("containment", ctx().count(800, 60000), case_containment);
+	add_generator("poisson_skewness", ctx().is_asan() ? 0 : ctx().count(2, 16), case_poisson_skewness, 1800.0);
 	add_generator("laws", ctx().count(96, 2880), case_law, 1800.0);
 }
 VERIF_MAIN("C18", setup)
